@@ -37,6 +37,34 @@ def seeded_table():
     return f"{det} of {n} confirmed seeded changes are reported by the check of the property they break.\n\n" + "\n".join(rows)
 
 
+HB, HE = "<!-- BEGIN HARMLESS -->", "<!-- END HARMLESS -->"
+
+
+def harmless_table():
+    import json
+    rows = ["| change | property | kind | what the change does (author: independent sub-agent) | quick check on the changed tree |", "|---|---|---|---|---|"]
+    n = {"quiet": 0, "broken-tie-no-failing-input": 0, "ALARM-with-failing-input": 0}
+    hd = VERIF / "harmless"
+    if not hd.exists():
+        return "(no harmless-change experiment recorded)"
+    for d in sorted(hd.iterdir()):
+        if not (d / "meta.json").exists():
+            continue
+        m = json.loads((d / "meta.json").read_text())
+        r = json.loads((d / "result.json").read_text()) if (d / "result.json").exists() else {}
+        o = r.get("last_outcome", "not run")
+        n[o] = n.get(o, 0) + 1
+        first = r.get("runs", [{}])[0].get("outcome", o)
+        note = o if first == o else f"{o} (first run: {first}; machinery corrected since)"
+        cut = lambda t, k: (t[:k] + "…") if len(t) > k else t
+        rows.append(f"| {d.name} | {m.get('property')} | {m.get('kind','?')} | {cut(str(m.get('summary','')).replace('|','/').replace(chr(10),' '), 240)} | {note} |")
+    head = (f"{sum(n.values())} behaviour-preserving changes (three per property: a structural refactoring, an equivalent rewrite, a change of an internal "
+            f"policy the contract leaves open), each confirmed to pass the repository's tests: {n.get('quiet',0)} leave the check quiet, "
+            f"{n.get('broken-tie-no-failing-input',0)} break the tie between model and code without a failing input (reported as `VIOLATION … no-failing-input-found`, "
+            f"as the interface requires when the property is no longer shown to hold), {n.get('ALARM-with-failing-input',0)} raise an alarm with a purported failing input (= false alarm, to be corrected).")
+    return head + "\n\n" + "\n".join(rows)
+
+
 def fixed_table():
     import json
     kf = json.loads((VERIF / "known_findings.json").read_text())
@@ -62,6 +90,8 @@ def main():
     d = VERIF / "DESIGN.md"
     s = d.read_text()
     s = put(s, FB, FE, "### 4b. Defects repaired and findings kept (generated from known_findings.json)\n\n" + fixed_table(),
+            "--------------------------------------------------------------------------------------\n## 5. Trusted base")
+    s = put(s, HB, HE, "### 4d. Harmless changes and how the checks react (generated from harmless/*/result.json)\n\n" + harmless_table(),
             "--------------------------------------------------------------------------------------\n## 5. Trusted base")
     s = put(s, SB, SE, "### 4c. Seeded changes and which checks catch them (generated from seeded/*/result.json)\n\n" + seeded_table(),
             "--------------------------------------------------------------------------------------\n## 5. Trusted base")
